@@ -6,13 +6,15 @@
 (*   table : it starts with  ark: / scp: / ark,opts: ...                   *)
 (*   ext   : the text after the last "." (the whole name if there is none) *)
 (*   pipe  : it ends with "|"                                              *)
+(*   dotted: there are other dots earlier in the path                      *)
 (* SF is config.SOUNDFILE_SUPPORTED_FILE_TYPES in the running environment. *)
 (***************************************************************************)
 EXTENDS Integers, Sequences, FiniteSets, TLC, Json, IOUtils, SequencesExt
 CONSTANTS SF
 
 Exts == {"wav", "flac", "aiff", "ogg", "hdf5", "npy", "npz", "pt", "sph", "txt", "WAV", "bak", "noext", "sph|", "file", "soundfile", "kaldi", "table"}
-Names == [table : BOOLEAN, ext : Exts, pipe : BOOLEAN]
+\* dotted: the path has further dots before the extension (directory.v2/utt.01.<ext>): irrelevant to the rules
+Names == [table : BOOLEAN, ext : Exts, pipe : BOOLEAN, dotted : BOOLEAN]
 Forced == {"table", "wav", "hdf5", "npy", "npz", "pt", "sph", "kaldi", "file", "soundfile"}
 ForceAs == {"none", "bogus", "mp3"} \cup Forced \cup SF
 
